@@ -1,6 +1,7 @@
 package main
 
 import (
+	"go/types"
 	"fmt"
 	"go/token"
 	"strings"
@@ -17,6 +18,8 @@ func checkC13(c *Ctx) {
 	c.Rule("C13-R2", "every force-dirty site reachable from Show lies behind resize()'s size-changed test or is a documented neighbour site")
 	c.Rule("C13-R3", "cell payload is written only from drawCell (writeString callers)")
 	c.Rule("C13-R4", "LockRegion(lock) calls LockCell only under lock==true and UnlockCell only under lock==false")
+	c.Rule("C13-R5", "the content-changed tests of CellBuffer do not tell a nil combining list from an empty one (the stored copy is always non-nil): reflect.DeepEqual on combining lists only under a non-zero length guard")
+	c.Expect("C13-R5", 1)
 	c.Expect("C13-R1", 8)
 	c.Expect("C13-R2", 5)
 	c.Expect("C13-R3", 1)
@@ -51,6 +54,7 @@ func checkC13(c *Ctx) {
 	}
 	ws := sortedKeys(set)
 	c.Check(len(ws) == 2 && ws[0] == "Beep" && ws[1] == "drawCell", "C13-R3", "writeString:callers", "-", fmt.Sprintf("callers of the raw writer: %v", ws))
+	c13ListCompare(c, p)
 	// R4
 	lr := p.Fn("tcell:(*baseScreen).LockRegion")
 	if lr == nil {
@@ -262,4 +266,70 @@ func behindSizeChanged(fn *ssa.Function, site ssa.Instruction) bool {
 	}
 	in := mustFlow(fn, 0, nil, edgeT)
 	return factsAt(in, site, nil)&differs != 0
+}
+
+// c13ListCompare: SetContent stores a private, never-nil copy of the combining
+// runes (append([]rune{}, combc...)), callers pass nil for "none".  A comparison
+// that distinguishes nil from empty therefore reports a change on every
+// re-store of identical content, and the next Show rewrites unchanged cells.
+// reflect.DeepEqual does distinguish them, so it may only run where a non-zero
+// length has been established (lengths are compared separately).
+func c13ListCompare(c *Ctx, p *Prog) {
+	n := 0
+	for _, fn := range p.modFns {
+		if fn.Pkg != p.Tcell || recvTypeName(topFunc(fn)) != "tcell.CellBuffer" {
+			continue
+		}
+		eachInstr(fn, func(in ssa.Instruction) {
+			cc := callCommon(in)
+			if cc == nil || calleeName(cc) != "reflect.DeepEqual" || len(cc.Args) != 2 {
+				return
+			}
+			isRunes := func(v ssa.Value) (ssa.Value, bool) {
+				if mi, ok := v.(*ssa.MakeInterface); ok {
+					if sl, ok := mi.X.Type().Underlying().(*types.Slice); ok {
+						if b, ok := sl.Elem().Underlying().(*types.Basic); ok && b.Kind() == types.Int32 {
+							return mi.X, true
+						}
+					}
+				}
+				return nil, false
+			}
+			a, okA := isRunes(cc.Args[0])
+			b, okB := isRunes(cc.Args[1])
+			if !okA || !okB {
+				return
+			}
+			n++
+			guarded := false
+			for _, g := range rawGuardsAt(in.Block()) {
+				bo, ok := g.Cond.(*ssa.BinOp)
+				if !ok {
+					continue
+				}
+				call, ok := bo.X.(*ssa.Call)
+				if !ok {
+					continue
+				}
+				bi, ok := call.Call.Value.(*ssa.Builtin)
+				if !ok || bi.Name() != "len" || (call.Call.Args[0] != a && call.Call.Args[0] != b && valName(call.Call.Args[0]) != valName(a) && valName(call.Call.Args[0]) != valName(b)) {
+					continue
+				}
+				k, ok := constInt(bo.Y)
+				if !ok {
+					continue
+				}
+				if g.Positive && ((bo.Op == token.GTR && k == 0) || (bo.Op == token.NEQ && k == 0) || (bo.Op == token.GEQ && k == 1)) {
+					guarded = true
+				}
+				if !g.Positive && ((bo.Op == token.EQL && k == 0) || (bo.Op == token.LEQ && k == 0) || (bo.Op == token.LSS && k == 1)) {
+					guarded = true
+				}
+			}
+			c.Check(guarded, "C13-R5", fn.Name()+":list-compare@"+valName(a), p.pos(in.Pos()), "reflect.DeepEqual("+valName(a)+", "+valName(b)+") runs only where one of the lists is known to be non-empty")
+		})
+	}
+	if n == 0 {
+		c.Trivial("C13-R5", "list-compare", "-", "no reflect.DeepEqual on combining lists")
+	}
 }
